@@ -633,12 +633,13 @@ fn parse_expr_unaryop(
                     ));
                 }
                 match context.module.type_registry.extract_scalar(tyl) {
-                    Some(ir::ScalarType::Bool) => Err(TyperError::UnaryOperationWrongTypes(
+                    // Only numeric types that are not bool can be incremented (not arrays, structs, objects)
+                    Some(ir::ScalarType::Bool) | None => Err(TyperError::UnaryOperationWrongTypes(
                         op.clone(),
                         ErrorType::Unknown,
                         base_location,
                     )),
-                    _ => Ok(()),
+                    Some(_) => Ok(()),
                 }
             }
 
@@ -1146,6 +1147,27 @@ fn parse_expr_binop(
                 || lhs_ir.is_const_path(&context.module)
             {
                 return Err(TyperError::MutableRequired(lhs.get_location()));
+            }
+
+            // The shift and bitwise forms require integers like their binary operators do
+            if matches!(
+                op,
+                ast::BinOp::LeftShiftAssignment
+                    | ast::BinOp::RightShiftAssignment
+                    | ast::BinOp::BitwiseAndAssignment
+                    | ast::BinOp::BitwiseOrAssignment
+                    | ast::BinOp::BitwiseXorAssignment
+            ) {
+                let left_base = context.module.type_registry.remove_modifier(lhs_type.0);
+                let right_base = context.module.type_registry.remove_modifier(rhs_type.0);
+                let lhs_nv_id = context.module.type_registry.get_non_vector_id(left_base);
+                let rhs_nv_id = context.module.type_registry.get_non_vector_id(right_base);
+                if !is_integer_or_bool_or_enum(lhs_nv_id, context) {
+                    return Err(TyperError::IntegerTypeExpected(lhs.location));
+                }
+                if !is_integer_or_bool_or_enum(rhs_nv_id, context) {
+                    return Err(TyperError::IntegerTypeExpected(rhs.location));
+                }
             }
             let required_rtype = match lhs_type.1 {
                 ir::ValueType::Lvalue => ExpressionType(lhs_type.0, ir::ValueType::Rvalue),
@@ -1708,6 +1730,13 @@ fn parse_expr_unchecked(
                             }
                         });
                     }
+                    // There are no vectors with more than four components
+                    if swizzle_slots.len() > 4 {
+                        return Err(TyperError::TypeDoesNotHaveMembers(
+                            composite_pt,
+                            composite.get_location(),
+                        ));
+                    }
                     let vt = ir::get_swizzle_value_type(&swizzle_slots, vt);
                     let ty_unmod = if swizzle_slots.len() == 1 {
                         composite_ty_nomod
@@ -1754,6 +1783,14 @@ fn parse_expr_unchecked(
                                 ));
                             }
                         });
+                    }
+                    // There are no vectors with more than four components
+                    if swizzle_slots.len() > 4 {
+                        return Err(TyperError::InvalidSwizzle(
+                            composite_ty,
+                            member.node.clone(),
+                            member.get_location(),
+                        ));
                     }
                     let vt = ir::get_swizzle_value_type(&swizzle_slots, vt);
                     // Lets say single element swizzles go to scalars
